@@ -54,4 +54,13 @@ def main():
 
 
 if __name__ == "__main__":
-    sys.exit(main())
+    try:
+        rc = main()
+    except SystemExit:
+        raise
+    except BaseException:      # never let a crash of the machinery look like a verdict (exit 1 = VIOLATION)
+        import traceback
+        traceback.print_exc()
+        print("HARNESS-ERROR unexpected exception in the driver")
+        rc = 2
+    sys.exit(rc)
